@@ -2,6 +2,7 @@ import AvroModel.Drv.Sexp
 import AvroModel.Drv.C17
 import AvroModel.Drv.Enc
 import AvroModel.Drv.CodecDrv
+import AvroModel.Drv.Time
 open Avro Avro.Sexp Avro.Drv
 
 def dispatch (prop : String) (op : String) (args : List Sexp) : Verdict :=
@@ -11,6 +12,8 @@ def dispatch (prop : String) (op : String) (args : List Sexp) : Verdict :=
   | "C16" => c16 op args
   | "C03" => c03 op args
   | "C04" => c04 op args
+  | "C18" => c18 op args
+  | "C19" => c19 op args
   | _ => .bad s!"unknown property {prop}"
 
 partial def loop (prop : String) (h : IO.FS.Stream) (out : IO.FS.Stream) : IO Unit := do
